@@ -440,6 +440,20 @@ func c12NestedValues(rng *splitmix) []interface{} {
 	}
 }
 
+// nestedEncode encodes v while another Encoder encodes `other` completely between any two
+// writes; the result must be the plain encoding.
+func nestedEncode(v, other interface{}, nm map[string]string, plain []byte) error {
+	w := &nestingWriter{inner: func() { hessian.NewEncoder(nil, nm).Encode(other) }}
+	var err error
+	if pv, st := guard(func() { err = hessian.NewEncoder(nil, nm).WriteTo(w, v) }); pv != nil || err != nil {
+		return fmt.Errorf("encode while another Encoder works between the writes failed: %v %v [%s]", err, pv, st)
+	}
+	if msg := sameStream(plain, w.buf.Bytes()); msg != "" {
+		return fmt.Errorf("the stream differs when another Encoder encodes a value between two writes: %s", msg)
+	}
+	return nil
+}
+
 type nestingWriter struct {
 	buf   bytes.Buffer
 	inner func()
